@@ -125,6 +125,10 @@ impl<'a> __Type<'a> {
                     .values()
                     .filter(|field| is_visible(ctx, &field.visible))
                     .filter(|field| {
+                        self.visible_types
+                            .contains(registry::MetaTypeName::concrete_typename(&field.ty))
+                    })
+                    .filter(|field| {
                         (include_deprecated || !field.deprecation.is_deprecated())
                             && !field.name.starts_with("__")
                     })
